@@ -75,6 +75,16 @@ Definition add (a b : Z) : Z :=
     let r := cS (aS (a + b)) in
     if (cS p <=? r) || (r <? a) then cS (aS (r - cS p)) else r.
 
+(* GenericAddIN, unsigned: r += a; r = (r >= Caster<TElem>(_p) || r < a) ? r - Caster<TElem>(_p) : r      (a = the SECOND operand)
+   GenericAddIN, signed:   U rr(r); rr += Caster<U>(a); r = Caster<TElem>(rr >= Caster<U>(_p) || rr < Caster<U>(a) ? rr -= Caster<U>(_p) : rr) *)
+Definition addin (r0 a : Z) : Z :=
+  if sgn s then
+    let rr := cU (aU (cU r0 + cU a)) in
+    cS (if (cU p <=? rr) || (rr <? cU a) then cU (aU (rr - cU p)) else rr)
+  else
+    let r := cS (aS (r0 + a)) in
+    cS (if (cS p <=? r) || (r <? a) then aS (r - cS p) else r).
+
 (* neg: r = (a == 0) ? Caster<Element>(0) : Caster<Element>(_p) - a *)
 Definition neg (a : Z) : Z := cS (if a =? 0 then cS 0 else aS (cS p - a)).
 
@@ -164,10 +174,11 @@ End Ops.
 
 (* ------------------------------------------------------------------ Z-level wrappers for extraction.
    in-place forms are the same bodies with r in the place of an operand:
-     mulin(r,a) = mul(r,a); addin(r,a) = add'(r,a) (GenericAddIN: same expression with r += a);
+     mulin(r,a) = mul(r,a); addin(r,a) = GenericAddIN (own definition: the wrap test is against the second operand);
      subin(r,a) = sub(r,a); negin(r) = neg(r); axpyin(r,a,b) = axpy(a,b,r); axmyin(r,a,b) = axmy(a,b,r). *)
 Definition mulZ sb sg cb p a b := mul (mk_modular sb sg cb p) a b.
 Definition addZ sb sg cb p a b := add (mk_modular sb sg cb p) a b.
+Definition addinZ sb sg cb p r a := addin (mk_modular sb sg cb p) r a.
 Definition subZ sb sg cb p a b := sub (mk_modular sb sg cb p) a b.
 Definition negZ sb sg cb p a := neg (mk_modular sb sg cb p) a.
 Definition axpyZ sb sg cb p a b y := axpy (mk_modular sb sg cb p) a b y.
